@@ -29,9 +29,11 @@ def run_file_check(chk, cfgs, sims=(), opts=None, judge=None, workers=12, replay
                 yield r
 
     for c in cfgs:
+        import time as _t; _t0 = _t.time()
         run = vcheck.TlcRun('NixFile', 'MC_NixFile_%s.cfg' % c, workers=workers, timeout=3000, heap='12g', coverage=False)
         recs, verdicts = rp.run(tap(run))
         run.require_ok()
+        print('[check]   NixFile %s: %d cases in %.1fs' % (c, len(recs), _t.time() - _t0), flush=True)
         chk.note_tlc(run)
         chk.absorb(recs, verdicts, rp)
         if run.truncated:
